@@ -87,4 +87,53 @@ example : (((Arena.new 0 (⟨0, 0, 0⟩ : Ent Nat)).kInsert ⟨2, 1, 20⟩ 0).bi
     (a.kInsert ⟨5, 9, 50⟩ 0).bind fun a => (a.kQueryT .fle 1 (fun k => compare k 7)).map fun x =>
       (x.2.1, x.2.2.length, x.2.2.map (·.ent.key))) = some (some 50, 3, [5, 5, 2]) := by decide
 
+
+/-! ### map / set tree -/
+
+/-- **map / set, insert** run by the pointer code: it completes, and at every call of the user's comparison
+code the arena is still, field by field, the arena before the operation (all callbacks precede the allocation
+of the new slot) — a panic in any of them leaves the collection exactly as it was -/
+theorem arena_map_insert_callbacks {a : Arena V} {st : St V} (e : Ent V) (h : RepSt a st) (hw : WF st)
+    (hroom : a.nodes.size + a.cap ≤ EMPTY) :
+    ∃ a' atr, a.insertT e = some (a', atr) ∧ a.insert e = some a' ∧ RepSt a' (st.insert e) ∧
+      ∀ ae ∈ atr, ae.arena = a ∧ ae.kind = .cmp := by
+  obtain ⟨a', h1, h2, _⟩ := arena_insert_refines e h hw hroom
+  have he := insertT_erase a e
+  rw [h1] at he
+  obtain ⟨⟨a'', atr⟩, h3, h4⟩ := Option.map_eq_some_iff.mp he
+  simp only at h4; subst h4
+  refine ⟨a'', atr, h3, h1, h2, ?_⟩
+  simp only [Arena.insertT] at h3
+  by_cases hr : (a.root == EMPTY) = true
+  · simp only [hr, if_true, Option.map_eq_some_iff, Prod.mk.injEq] at h3
+    obtain ⟨_, _, _, rfl⟩ := h3
+    intro ae hae; cases hae
+  · simp only [hr, Bool.false_eq_true, if_false] at h3
+    exact insertLoopT_pre _ _ _ _ _ h3 (fun ae hae => by cases hae)
+
+/-- **map / set, delete by key**: the same — `find_index` is the only part that calls user code and it writes
+nothing; `delete_index` calls no user code at all -/
+theorem arena_map_delete_callbacks {a : Arena V} {st st' : St V} (key : Int) (h : RepSt a st) (hw : WF st)
+    (hsize : a.nodes.size ≤ EMPTY) (hm : st.step (.delete key) = some st') :
+    ∃ a' atr, a.deleteT key = some (a', atr) ∧ a.delete key = some a' ∧ RepSt a' st' ∧
+      ∀ ae ∈ atr, ae.arena = a ∧ ae.kind = .cmp := by
+  obtain ⟨a', h1, h2, _⟩ := arena_delete_refines key h hw hsize hm
+  have he := deleteT_erase a key
+  rw [h1] at he
+  obtain ⟨⟨a'', atr⟩, h3, h4⟩ := Option.map_eq_some_iff.mp he
+  simp only at h4; subst h4
+  refine ⟨a'', atr, h3, h1, h2, ?_⟩
+  simp only [Arena.deleteT, Option.bind_eq_bind] at h3
+  cases hf : Arena.findIndexT (a.nodes.size + 1) a key a.root [] with
+  | none => simp [hf] at h3
+  | some x =>
+    obtain ⟨i, tr⟩ := x
+    simp only [hf, Option.bind_some] at h3
+    have hpre := findIndexT_pre _ _ _ _ _ hf (fun ae hae => by cases hae)
+    by_cases hi : (i != EMPTY) = true
+    · simp only [hi, if_true, Option.map_eq_some_iff, Prod.mk.injEq] at h3
+      obtain ⟨_, _, _, rfl⟩ := h3; exact hpre
+    · simp only [hi, Bool.false_eq_true, if_false, Option.some.injEq, Prod.mk.injEq] at h3
+      obtain ⟨_, rfl⟩ := h3; exact hpre
+
 end ITree
